@@ -56,6 +56,8 @@ class Sched:
         self.fair_limit = 150
         self.on_step = None           # dispatcher hook (e.g. to open a gate at a given step)
         self.priority = None          # a thread id the dispatcher prefers while it is runnable
+        self.spin_cost = 0.0          # virtual seconds every step of a daemon thread takes (a clock with tick length 0 spins:
+                                      # without a cost virtual time would stand still while it does)
         self.streak = 0
         self.rr = 0
 
@@ -204,6 +206,14 @@ class Sched:
             self.prev = chosen
             self.steps += 1
             ts = self.threads[chosen]
+            if self.spin_cost and ts.daemon:
+                self.vtime += self.spin_cost
+                for t in live:
+                    if t.status == 'blocked' and t.wake_time is not None and t.wake_time <= self.vtime:
+                        t.status = 'runnable'
+                        t.timed_out = True
+                        t.wait_on = None
+                        t.wake_time = None
             ts.sem.release()
             self.back.acquire()
         # end of run: unwind whatever is left
